@@ -13,3 +13,4 @@ pub mod c10;
 pub mod c11;
 pub mod c13;
 pub mod c12;
+pub mod c14;
